@@ -33,4 +33,4 @@ check = make_check('C07', _oracle, _nt)
 def streams(tier):
     n = 8 if tier == 'quick' else 12
     return [Stream('both-schedulers', check, strategy=lambda: sched.any_case(max_tasks=n, min_tasks=0),
-                   examples={'quick': 4000, 'thorough': 80000})]
+                   examples={'quick': 10000, 'thorough': 100000})]
